@@ -99,7 +99,10 @@ def check_weighted(ctx, case) -> None:
             ctx.check(gv == w or abs(gv - w) <= 1e-12 + 4 * math.ulp(max(abs(gv), abs(w))), "group-degree", case,
                       {"group": name, "got": gv, "want": w, "row": row})
         for t in case["terms"]:
-            ad = np.asarray(agg.activation_degree(terms[t["name"]]), dtype=float).reshape(-1)
+            # grouping is by term *name*: any term object carrying the name asks for the same group
+            query = terms[t["name"]] if row % 2 == 0 else (
+                fl.Triangle(t["name"], 0.0, 1.0, 2.0) if t["cls"] == "Function" else build.mk_term(t, eng))
+            ad = np.asarray(agg.activation_degree(query), dtype=float).reshape(-1)
             av = float(ad[row] if ad.size > 1 else ad[0])
             w = want_g.get(t["name"], 0.0)
             ctx.check(av == w or abs(av - w) <= 1e-12 + 4 * math.ulp(max(abs(av), abs(w))), "activation-degree",
@@ -244,6 +247,8 @@ def cases(draw):
     batch = draw(st.integers(0, 3)) == 0
     m = draw(st.integers(2, 5)) if batch else 1
     na = draw(st.sampled_from([0, 1, 2, 2, 3, 4, 5, 6]))
+    # degrees stay in [0, 1]: above 1 (only a rule weight above the documented [0, 1] produces them) the bounded S-norms
+    # are no longer neutral at 0 and the statement's own zero-degree clause fails on the unchanged code
     deg = st.one_of(gen.unit_degree(), st.sampled_from([0.0, 0.0, 1.0]))
     acts = []
     for _ in range(na):
